@@ -7,11 +7,11 @@
 package main
 
 import (
-	"os"
 	"bytes"
 	"encoding/json"
 	"fmt"
 	"io"
+	"os"
 	"reflect"
 	"regexp"
 	"runtime"
@@ -114,7 +114,9 @@ func bases(tier string) []base {
 }
 
 // mutation alphabet applied at a position
-var retypes = []any{nil, true, int64(7), "text", []any{}, map[any]any{}, []any{"x"}, map[any]any{"k": "v"}, int64(-1), "", uint64(1 << 63), 1.5}
+var retypes = []any{nil, true, int64(7), "text", []any{}, map[any]any{}, []any{"x"}, map[any]any{"k": "v"}, int64(-1), "", uint64(1 << 63), 1.5,
+	// free text that is special to a consumer of names (regular expressions, paths)
+	"*[(", "x|"}
 
 type mutant struct {
 	Desc any
